@@ -109,6 +109,10 @@ func (c06) Plan(tier string, seed int64) []core.Scenario {
 			out = append(out, core.Sc("rawids").WithN("set", set).WithN("order", order))
 		}
 	}
+	// a cancel arriving while the handler of a notification on the same connection is still running
+	for i := 0; i < 3; i++ {
+		out = append(out, core.Sc("cancel-behind-notify").WithN("notes", 1+i).WithN("sub", i%2).WithN("noise", i%3))
+	}
 	// reverse calls on a re-established connection, cancelled after handlers that belong to the old connection finished
 	for i := 0; i < 4; i++ {
 		out = append(out, core.Sc("stale-reverse-cancel").WithN("fk", i%2).WithN("old", 1+i%3).WithN("order", i/2).WithN("noping", i%2))
@@ -122,6 +126,10 @@ func (c06) Plan(tier string, seed int64) []core.Scenario {
 
 func (p c06) Run(sc core.Scenario) core.Result {
 	r := core.NewR(sc)
+	if sc.Kind == "cancel-behind-notify" {
+		p.cancelBehindNotify(sc, r)
+		return r.Result()
+	}
 	if sc.Kind == "stale-reverse-cancel" {
 		p.staleReverseCancel(sc, r)
 		return r.Result()
@@ -874,4 +882,95 @@ func (c06) staleReverseCancel(sc core.Scenario, r *core.R) {
 	r.Obs("reverse_calls", int64(2*nOld+1))
 	r.Sig(core.Log.Signature())
 	r.Sample(map[string]interface{}{"scenario": "reverse calls on a re-established connection cancelled around the end of handlers of the old connection", "old_handlers": nOld, "order": sc.I("order")})
+}
+
+// cancelBehindNotify: one or more notifications whose handlers are still running (held) on a ws connection;
+// an in-flight call (and optionally an open subscription) on the same connection is cancelled. The
+// cancellation must reach its handler while the notification handlers are still busy, and a later call must
+// be served meanwhile.
+func (c06) cancelBehindNotify(sc core.Scenario, r *core.R) {
+	env := NewEnv(EnvOpt{})
+	defer env.Shutdown()
+	defer noisePolicy(sc).Install()()
+	cl, err := env.NewClient(ClientOpt{})
+	if err != nil {
+		r.Inconclusive("client: %v", err)
+		return
+	}
+	bg := context.Background()
+	// the call that will be cancelled is in flight first
+	ct := Tok("c")
+	env.Svc.Hold(ct)
+	cctx, ccancel := context.WithCancel(bg)
+	defer ccancel()
+	co := Go(ct, func() (string, error) { return cl.Echo(cctx, ct, "") })
+	if !env.Svc.WaitEntered(ct, core.Grace) {
+		r.Inconclusive("call never reached its handler")
+		return
+	}
+	var sg *got
+	st := Tok("s")
+	sctx, scancel := context.WithCancel(bg)
+	defer scancel()
+	if sc.I("sub") == 1 {
+		ch, err := cl.Sub(sctx, st, 0, svc.SInfinite)
+		if err != nil {
+			r.Inconclusive("subscribe: %v", err)
+			return
+		}
+		sg = drainItems(ch, 0, -1, nil)
+	}
+	var notes []string
+	for i := 0; i < sc.I("notes"); i++ {
+		nt := Tok("n")
+		env.Svc.Hold(nt)
+		if err := cl.Note(bg, nt); err != nil {
+			r.Inconclusive("notify: %v", err)
+			return
+		}
+		notes = append(notes, nt)
+	}
+	if !env.Svc.WaitEntered(notes[0], core.Grace) {
+		r.Inconclusive("notification handler never entered")
+		return
+	}
+	ccancel()
+	scancel()
+	select {
+	case <-env.Svc.ExitedCh(ct):
+	case <-time.After(core.Grace):
+		r.Violate("cancel-not-delivered:behind-notify", "the context of call %s was cancelled by its caller while %d notification handler(s) on the same connection were still running: its handler's context is still live after %v", ct, len(notes), core.Grace)
+	}
+	if sg != nil {
+		rec := env.Svc.Get(st)
+		ok := false
+		deadline := time.Now().Add(core.Grace)
+		for time.Now().Before(deadline) {
+			if rec.Ctx != nil && rec.Ctx.Err() != nil {
+				ok = true
+				break
+			}
+			time.Sleep(2 * time.Millisecond)
+		}
+		if !ok {
+			r.Violate("cancel-not-delivered:behind-notify", "the subscription %s was cancelled by its caller while %d notification handler(s) were still running: its handler's context is still live", st, len(notes))
+		}
+	}
+	// the notification handlers themselves must not have been cancelled by the sibling's cancel
+	for _, nt := range notes {
+		if rec := env.Svc.Get(nt); rec.Ctx != nil && rec.Ctx.Err() != nil {
+			r.Violate("cancel-hit-bystander:behind-notify", "the context of the running notification handler %s was cancelled (%v) when a sibling call was cancelled", nt, rec.Ctx.Err())
+		}
+	}
+	pt := Tok("p")
+	po := Go(pt, func() (string, error) { return cl.Echo(bg, pt, "") })
+	if !po.Wait(core.Grace) || po.Err != nil {
+		r.Violate("cancelled-call-hang:behind-notify", "a plain call issued while %d notification handler(s) were running did not complete (returned=%v err=%v)", len(notes), po.Returned(), po.Err)
+	}
+	env.Svc.ReleaseAll()
+	co.Wait(core.Grace)
+	r.Key(fmt.Sprintf("cancel-behind-notify notes=%d sub=%d", len(notes), sc.I("sub")), true)
+	r.Obs("notifications_running", int64(len(notes)))
+	r.Sig(core.Log.Signature())
+	r.Sample(map[string]interface{}{"scenario": "cancel while notification handlers on the same connection are running", "notifications": len(notes), "subscription": sc.I("sub") == 1})
 }
